@@ -7,7 +7,10 @@ pkgcore.operations.domain, disable_plugins=True) with the triggers `merge`, `unm
 /etc/env.d files (CONFIG_PROTECT / CONFIG_PROTECT_MASK / COLLISION_IGNORE, several files, decoy
 files env-update must skip), live config files, pending `._cfgNNNN_<name>` updates (identical to the
 incoming file or not, gaps in the numbering), for a non-/ offset and -- process chroot()ed into the
-scratch root -- for offset "/".  Packages are built as in C20 (vf/gen/mergefs.py).
+scratch root -- for offset "/".  Packages are built as in C20 (vf/gen/mergefs.py).  The directory
+vocabulary contains names that are bare string prefixes of each other (etc/masked, etc/masked.d,
+etc/env.d.local, opt/app/conf.d ...) and the total number of mask entries is drawn as 0 / 1 / several
+(each branch of the filter construction), both counted as classes.
 
 Oracle (reference written from the property statement, vf-side only; snapshots by vf/fsx.py):
   claimed(P)  P lies under a CONFIG_PROTECT directory (env.d of the root, constructor extras for the
@@ -60,7 +63,9 @@ RULE = (
     "case = (mode, chroot?, env.d files, extras, config slots {dir,name,live,incoming,recorded,pending[]}) drawn by "
     "hypothesis from a fixed vocabulary; non-trivial = the case contains at least one *claimed* slot whose live bytes "
     "differ from the incoming (install side) or recorded (unmerge side) bytes; classes count pending-identical / "
-    "pending-other / masked / ignored / env.d-vs-extra protection / directory entries in COLLISION_IGNORE / offset kind; "
+    "pending-other / masked / ignored / env.d-vs-extra protection / directory entries in COLLISION_IGNORE / offset kind / "
+    "0, 1, 2+ CONFIG_PROTECT_MASK entries in total / subjects in directories whose name merely starts with a masked "
+    "(or protected) directory name; "
     "distinct = canonical JSON of the case"
 )
 ASSUMPTIONS = [
@@ -69,16 +74,19 @@ ASSUMPTIONS = [
     "recorded contents have the vdb ContentsFile shape, new contents the livefs.scan(image, offset=image) shape",
     "runs as root; chroot(2) available",
 ]
-BUDGET = {"quick": 30, "thorough": 840}
+BUDGET = {"quick": 25, "thorough": 840}
 
 TRIGGERS = ["merge", "unmerge", "basesys", "cfg_install", "cfg_uninstall"]
 
 PROT = ["/opt/app/conf", "/usr/share/cfg", "/var/lib/app/etc", "/opt/app/conf/"]
-MASKS = ["/etc/masked", "/opt/app/conf/skip", "/usr/share/cfg/gen", "/etc/app/sub", "/etc/masked/"]
+MASKS = ["/etc/masked", "/opt/app/conf/skip", "/usr/share/cfg/gen", "/etc/app/sub", "/etc/masked/", "/etc/env.d"]
 IGNS = ["/etc/ign.d", "/etc/ign.d/*", "/etc/app/*.local", "/opt/app/conf/ignfile", "*/zz.ignored", "/nonexistent/thing"]
 CFGDIRS = ["etc", "etc/app", "etc/app/sub", "etc/masked", "etc/ign.d", "opt/app/conf", "opt/app/conf/skip",
-           "usr/share/cfg", "usr/share/cfg/gen", "var/lib/app/etc", "usr/lib/app", "opt/app"]
-NAMES = ["a.conf", "b", "x.local", "ignfile", "with space", ".keep_x", "zz.ignored"]
+           "usr/share/cfg", "usr/share/cfg/gen", "var/lib/app/etc", "usr/lib/app", "opt/app",
+           # names that merely *start with* a maskable / protectable directory name (no "/" boundary)
+           "etc/masked.d", "etc/masked-site", "etc/env.d.local", "etc/app/sub.d", "opt/app/conf/skip2",
+           "usr/share/cfg/gen.old", "opt/app/conf.d", "usr/share/cfgs"]
+NAMES = ["a.conf", "b", "x.local", "ignfile", "with space", ".keep_x", "zz.ignored", "masked.conf"]
 DECOYS = ["10x.bak", "._cfg0000_10app", "x1", "99~", "7"]
 DECOY_TEXT = 'CONFIG_PROTECT_MASK="/etc /opt /usr /var"\n'
 
@@ -100,15 +108,30 @@ def cases(draw):
         v = {}
         if draw(st.booleans()):
             v["CONFIG_PROTECT"] = draw(st.lists(st.sampled_from(PROT), min_size=1, max_size=2, unique=True))
-        if draw(st.integers(0, 2)) == 0:
-            v["CONFIG_PROTECT_MASK"] = draw(st.lists(st.sampled_from(MASKS), min_size=1, max_size=2, unique=True))
         if draw(st.integers(0, 4)) == 0:
             v["COLLISION_IGNORE"] = draw(st.lists(st.sampled_from(IGNS), min_size=1, max_size=2, unique=True))
         envd.append({"name": fname, "vars": v})
     if draw(st.integers(0, 5)) == 0:
         envd.append({"name": draw(st.sampled_from(DECOYS)), "decoy": True, "vars": {}})
     protect = draw(st.lists(st.sampled_from(PROT), max_size=1))
-    mask = draw(st.lists(st.sampled_from(MASKS), max_size=1)) if draw(st.integers(0, 3)) == 0 else []
+    # CONFIG_PROTECT_MASK: none / exactly one / several entries in total, spread over env.d files and
+    # (install side only: the unmerge trigger takes none) the constructor extras
+    nmask = draw(st.sampled_from([0, 0, 1, 1, 1, 2, 3]))
+    mtokens = draw(st.lists(st.sampled_from(MASKS), min_size=nmask, max_size=nmask, unique=True))
+    mask = []
+    real = [f for f in envd if not f.get("decoy")]
+    for tok in mtokens:
+        if mode != "uninstall" and draw(st.integers(0, 3)) == 0:
+            mask.append(tok)
+            continue
+        if not real:
+            real.append({"name": "10app", "vars": {}})
+            envd.insert(0, real[0])
+        f = real[draw(st.integers(0, len(real) - 1))]
+        f["vars"].setdefault("CONFIG_PROTECT_MASK", []).append(tok)
+    # directories whose path has a configured mask entry as a bare string prefix
+    mask_sibs = [d for d in CFGDIRS if any(("/" + d).startswith(m.rstrip("/")) and not _under("/" + d, m) for m in mtokens)]
+    mask_under = [d for d in CFGDIRS if any(_under("/" + d, m) for m in mtokens)]
 
     root, old, new = [], [], []
     used = set()
@@ -117,7 +140,13 @@ def cases(draw):
     if any("/etc/ign.d" in f["vars"].get("COLLISION_IGNORE", ()) for f in envd) and draw(st.integers(0, 9)) < 7:
         root.append({"path": "etc/ign.d", "type": "dir"})
     for i in range(draw(st.integers(1, 5))):
-        d = draw(st.sampled_from(CFGDIRS))
+        where = draw(st.integers(0, 3))
+        if mask_sibs and where == 0:
+            d = draw(st.sampled_from(mask_sibs))
+        elif mask_under and where == 1:
+            d = draw(st.sampled_from(mask_under))
+        else:
+            d = draw(st.sampled_from(CFGDIRS))
         name = draw(st.sampled_from(NAMES))
         if (d, name) in used:
             continue
@@ -299,6 +328,16 @@ def classify(case, s0, ins, unm):
             cl.append("slot_masked")
         if not claimed(path, ["/"], [], ign):
             cl.append("slot_ignored")
+        if any(path.startswith(x.rstrip("/")) and not _under(path, x) for x in prot + list(case.get("protect", ()))):
+            cl.append("slot_prefix_sibling_of_protect")
+    allmask = set(mask) | (set(case.get("mask", ())) if case["mode"] != "uninstall" else set())
+    cl.append("mask_total_0" if not allmask else "mask_total_1" if len(allmask) == 1 else "mask_total_2plus")
+    for e in ins + unm:
+        path = "/" + e["path"]
+        if any(path.startswith(m.rstrip("/")) and not _under(path, m) for m in allmask):
+            cl.append("subject_prefix_sibling_of_mask")
+            if len(allmask) == 1:
+                cl.append("subject_prefix_sibling_of_single_mask")
     if ign:
         cl.append("collision_ignore_set")
         if any(("*" not in x) and (x.lstrip("/") in s0 and s0[x.lstrip("/")]["type"] == "dir") for x in ign):
